@@ -98,6 +98,12 @@ func (badgerkv *BadgerKV) DeletePrefix(prefix []byte) error {
 			}
 			return nil
 		})
+		if err == badger.ErrConflict {
+			// a concurrent transaction wrote a key this scan has read (the scan also reads the
+			// first key past the prefix, which belongs to a neighbour): retry the block
+			found = true
+			continue
+		}
 		if err != nil {
 			return err
 		}
